@@ -87,6 +87,14 @@ def make_pending_call(eng, st, c, args, kw, node, recv, star):
 
 
 def await_call(eng, st, p, node):
+    # awaiting another coroutine is a suspension point of THIS coroutine too (the callee may suspend, and other
+    # requests are served meanwhile): what this coroutine promises at suspensions -- its yield guarantees and the
+    # contract of its synchronous prefix -- must hold in the state in which the call is made
+    me = eng.contract
+    if getattr(p['c'], 'kind', '') == 'coroutine' and me is not None and (me.yield_guarantee or me.detached is not None):
+        for i, g in enumerate(me.yield_guarantee):
+            eng.add_vc('yield-guarantee[%d]' % i, 'yield', st, eng.spb(g, st, +1), node, note=g)
+        check_detached(eng, me, st, node)
     eng._awaiting = True
     try:
         return eng.call_contract(st, p['c'], p['args'], p['kw'], p['node'], p['recv'], p['star'])
